@@ -58,7 +58,8 @@ REQUIRED_EULER = ["reorder_copies_agree", "M44_extractSHRTOrd", "M44_extractSHRT
                   "M44_extractSHRTEuler_recompose_partial", "M44_extractSHRTEuler_recompose_XYZ", "M44_extractSHRTOrd_recompose_partial",
                   "M44_extractSHRTOrd_XYZ", "roundTrip_of_principal", "M44_extractSHRTEuler_recompose_real",
                   "M44_extractSHRTOrd_recompose_real", "nonvacuity_shrt_W", "nonvacuity_principal_W", "nonvacuity_recompose_W_ZYX",
-                  "M44_computeRSMatrix", "M44_computeRSMatrix_degenerate_B", "M44_computeRSMatrix_1_0_factors"]
+                  "M44_computeRSMatrix", "M44_computeRSMatrix_degenerate_B", "M44_computeRSMatrix_1_0_factors",
+                  "M44_extractSHRT_overloads_Exc", "M44_extractSHRT6_eq", "M44_extractSHRTExc", "cos_arctan_34", "sin_arctan_34"]
 IDX_C12 = os.path.join(troute.GEN, "index_c12.txt")
 REQUIRED_LINK = ["extractEulerXYZ_unit", "extractEulerXYZ_copies_agree", "setEulerAngles_toMat", "rotH3_extractEulerXYZ",
                  "M44_extractSHRT_recompose", "M44_sansScaling_recompose", "M44_removeScaling_recompose",
@@ -283,10 +284,16 @@ def euler_search(chk, sym_binary, name):
         lo, vo, io = real("M44.extractSHRTOrd_" + o)
         if ve is None or vo is None or len(ve) != 12 or len(vo) != 12:
             continue
-        want = perm(vo[6:9])
-        if ie[:1] != [1] or io[:1] != [1] or any(abs(a - b) > 1e-12 for a, b in zip(ve[6:9], want)):
-            bad.append({"order": o, "Euler_overload_r_storage(x,y,z)": ve[6:9], "Vec3_overload_r(XYZ vector)": vo[6:9],
-                        "expected_r_storage = setXYZVector(XYZ vector)": want, "real_code_at_double": le})
+        # W's rotation is about Z only, by atan(3/4): for these (non-repeated, static-frame) orders the XYZ vector is (0, 0, atan(3/4))
+        import math
+        xyz = [0.0, 0.0, math.atan2(3.0, 4.0)]
+        want = perm(xyz)
+        if ie[:1] != [1] or io[:1] != [1] or any(abs(a - b) > 1e-12 for a, b in zip(ve[6:9], want)) or \
+                any(abs(a - b) > 1e-12 for a, b in zip(vo[6:9], xyz)):
+            bad.append({"order": o, "Euler_overload_r_storage(x,y,z)": ve[6:9], "Vec3_rOrder_overload_r": vo[6:9],
+                        "expected_XYZ_vector_from_the_rOrder_overload": xyz,
+                        "expected_r_storage_of_the_Euler_overload = setXYZVector(XYZ vector)": want,
+                        "real_code_at_double": [le, lo]})
     if not bad:
         return None
     return {"key": "theorem:" + name,
